@@ -566,7 +566,18 @@ def corpus():
     # a shifted potential inside an inclusive range, evaluated AT the start of that range (the first row of a table that starts at r = 0)
     c5 = {'kind': 'sem', 'section': 'Pair', 'r': 0.0, 'ranged': True,
           'tree': {'op': 'range', 'marker': '>=', 'start': 0.0, 'a': {'op': 'trans', 'X': 1.5, 'a': {'op': 'leaf', 'form': 'bornmayer', 'params': [2.0, 0.5], 'kind': 'full'}}}}
-    return [c1, c2, c3, c4, c5] + [{'kind': 'text', 'text': t, 'wellformed': None} for t in texts]
+    # a modifier nested in a modifier of the same kind, the inner one restricted to a range: below that start only the outer terms count
+    def leaf(form, params): return {'op': 'leaf', 'form': form, 'params': params, 'kind': 'full'}
+    def nary(op, args):
+        t = args[0]
+        for x in args[1:]: t = {'op': op, 'a': t, 'b': x, 'nary_cont': True}
+        t['nary_args'] = args
+        return t
+    c6 = {'kind': 'sem', 'section': 'Pair', 'r': 0.5, 'ranged': True,
+          'tree': nary('plus', [leaf('constant', [1.0]), {'op': 'range', 'marker': '>=', 'start': 2.0, 'a': nary('plus', [leaf('constant', [10.0]), leaf('polynomial', [0.0, 100.0])])}])}
+    c7 = {'kind': 'sem', 'section': 'EAM-Density', 'r': 1.5, 'ranged': True,
+          'tree': nary('product', [leaf('constant', [3.0]), {'op': 'range', 'marker': '>', 'start': 1.5, 'a': nary('product', [leaf('constant', [2.0]), leaf('polynomial', [1.0, 1.0])])}, leaf('bornmayer', [2.0, 0.5])])}
+    return [c1, c2, c3, c4, c5, c6, c7] + [{'kind': 'text', 'text': t, 'wellformed': None} for t in texts]
 
 def correspond(ctx):
     g = ctx['rng']
